@@ -269,9 +269,24 @@ func combinedFile(g *gcert, k int) *pfile {
 }
 func textFile(s string) *pfile { return &pfile{data: []byte(s)} }
 
+// what a block that is there but holds nothing looks like
+var emptyBlocks = []string{"", "\n", " \t\r\n "}
+
 var badCertPEM = "-----BEGIN CERTIFICATE-----\nAAAA\n-----END CERTIFICATE-----\n"
 
 type blocks map[string]*pfile
+
+// the certificate file each certificate of the map sits in: a *-cert.pem file or a combined
+// *.pem file that holds it (whether its key is there too is for loadCertificates to find out)
+func ownersOf(b blocks) map[*gcert]string {
+	owner := map[*gcert]string{}
+	for f, pf := range b {
+		if pf.cert != nil && strings.HasSuffix(f, ".pem") && !strings.HasSuffix(f, "-key.pem") {
+			owner[pf.cert] = f
+		}
+	}
+	return owner
+}
 
 func (b blocks) raw() map[string][]byte {
 	if b == nil {
@@ -342,6 +357,59 @@ func realHandshake(cfg *tls.Config, sn string) []byte {
 		return nil
 	}
 	return pcs[0].Raw
+}
+
+// the same, returning everything of the certificate value that goes onto the wire: the
+// whole chain and the OCSP staple
+func realHandshakeFull(cfg *tls.Config, sn string) (chain [][]byte, staple []byte, ok bool) {
+	cc, sc := net.Pipe()
+	defer cc.Close()
+	defer sc.Close()
+	go func() {
+		srv := tls.Server(sc, cfg)
+		srv.SetDeadline(time.Now().Add(5 * time.Second))
+		srv.Handshake()
+	}()
+	cli := tls.Client(cc, &tls.Config{ServerName: sn, InsecureSkipVerify: true})
+	cli.SetDeadline(time.Now().Add(5 * time.Second))
+	if err := cli.Handshake(); err != nil {
+		return nil, nil, false
+	}
+	st := cli.ConnectionState()
+	for _, pc := range st.PeerCertificates {
+		chain = append(chain, pc.Raw)
+	}
+	return chain, st.OCSPResponse, true
+}
+
+// identities of certificate material for the model: of a leaf's DER, and of the rest of a
+// tls.Certificate value that a client sees (Certificate[1:], OCSPStaple, SCTs)
+var leafIDs = map[string]int{}
+var restIDs = map[string]int{}
+
+func leafID(c *tls.Certificate) int {
+	k := string(c.Certificate[0])
+	if _, ok := leafIDs[k]; !ok {
+		leafIDs[k] = len(leafIDs) + 1
+	}
+	return leafIDs[k]
+}
+func restID(c *tls.Certificate) int {
+	k := fmt.Sprintf("%x|%x|%x", c.Certificate[1:], c.OCSPStaple, c.SignedCertificateTimestamps)
+	if _, ok := restIDs[k]; !ok {
+		restIDs[k] = len(restIDs) + 1
+	}
+	return restIDs[k]
+}
+func coqFcert(c *tls.Certificate) string {
+	return vh.App("Build_fcert", coqNames(namesOf(*c)), vh.N(leafID(c)), vh.N(restID(c)))
+}
+
+// a certificate of a set with the material that is not its leaf
+type mcert struct {
+	g      *gcert
+	chain  []int // indices into the intermediates
+	staple int   // index into the staples
 }
 
 // names a real client puts into SNI unchanged
@@ -553,6 +621,158 @@ func main() {
 			map[string]interface{}{"sets": len(sets), "server_name": sn, "strict": strict, "picked": human})
 	}
 
+	// 2e. the whole certificate value: sets sent one after the other through the real
+	// TLSConfig (as in 2b) where a set may share its leaves with the one it replaces and
+	// differ only in the rest of the values - another intermediate chain, another OCSP
+	// staple -, be the same set again, a permutation, a renewal of one leaf, or a fresh set.
+	// Observed: the value GetCertificate returns (leaf, chain, staple) and what a real client
+	// is sent.  Random choices from a source of their own.
+	rm := mrand.New(mrand.NewSource(run.Seed*7919 + 1))
+	var inters [][]byte
+	for i := 0; i < 4; i++ {
+		inters = append(inters, mkCertK(fmt.Sprintf("Intermediate CA %d", i), nil, 2).tls.Certificate[0])
+	}
+	staples := [][]byte{nil, []byte("ocsp-staple-1"), []byte("ocsp-staple-2")}
+	mtls := func(set []mcert) []tls.Certificate {
+		out := make([]tls.Certificate, len(set))
+		for i, m := range set {
+			c := tls.Certificate{Certificate: [][]byte{m.g.tls.Certificate[0]}, PrivateKey: m.g.tls.PrivateKey, OCSPStaple: staples[m.staple]}
+			for _, k := range m.chain {
+				c.Certificate = append(c.Certificate, inters[k])
+			}
+			out[i] = c
+		}
+		return out
+	}
+	otherChain := func(old []int) []int {
+		for {
+			var c []int
+			for i, n := 0, rm.Intn(3); i < n; i++ {
+				c = append(c, rm.Intn(len(inters)))
+			}
+			if fmt.Sprint(c) != fmt.Sprint(old) {
+				return c
+			}
+		}
+	}
+	freshM := func() []mcert {
+		var set []mcert
+		for _, g := range randSet(rm, 1+rm.Intn(4), false) {
+			set = append(set, mcert{g: g, chain: otherChain([]int{-1}), staple: rm.Intn(len(staples))})
+		}
+		return set
+	}
+	// the successor of a set, by kind
+	nextM := func(prev []mcert, kind int) ([]mcert, string) {
+		set := append([]mcert{}, prev...)
+		k := rm.Intn(len(set))
+		switch kind {
+		case 0:
+			set[k].chain = otherChain(set[k].chain)
+			return set, "same-leaves-one-chain-changed"
+		case 1:
+			for i := range set {
+				set[i].chain = otherChain(set[i].chain)
+			}
+			return set, "same-leaves-all-chains-changed"
+		case 2:
+			set[k].staple = (set[k].staple + 1 + rm.Intn(len(staples)-1)) % len(staples)
+			return set, "same-leaves-staple-changed"
+		case 3:
+			return set, "same-set-again"
+		case 4:
+			for i, j := 0, len(set)-1; i < j; i, j = i+1, j-1 {
+				set[i], set[j] = set[j], set[i]
+			}
+			return set, "reversed"
+		case 5:
+			set[k].g = mkCert(set[k].g.cn, set[k].g.sans)
+			return set, "one-leaf-renewed"
+		case 6:
+			if len(set[k].chain) > 0 {
+				set[k].chain = nil
+			} else {
+				set[k].chain = []int{rm.Intn(len(inters))}
+			}
+			return set, "same-leaves-chain-dropped-or-added"
+		}
+		return freshM(), "fresh-set"
+	}
+	directedM := [][]int{{0}, {1, 3}, {2, 0}, {6, 5}, {3, 0, 7}, {4, 1}}
+	for rep := 0; rep < run.Scale(40, 300); rep++ {
+		strict := rep%2 == 0
+		sets := [][]mcert{freshM()}
+		human := []string{"fresh-set"}
+		var kinds []int
+		if rep < len(directedM) {
+			kinds = directedM[rep]
+		} else {
+			for i, n := 0, 1+rm.Intn(4); i < n; i++ {
+				kinds = append(kinds, rm.Intn(8))
+			}
+		}
+		for _, kind := range kinds {
+			nx, what := nextM(sets[len(sets)-1], kind)
+			sets, human = append(sets, nx), append(human, what)
+		}
+		var all []*gcert
+		for _, set := range sets {
+			for _, m := range set {
+				all = append(all, m.g)
+			}
+		}
+		sn := randRequest(rm, all)
+		s := &src{ch: make(chan []tls.Certificate)}
+		cfg, err := cert.TLSConfig(s, strict, 0, 0, nil)
+		if err != nil {
+			panic(err)
+		}
+		var coqSets, impl, seen []string
+		for _, set := range sets {
+			certs := mtls(set)
+			s.ch <- certs
+			s.ch <- certs
+			items := make([]string, len(certs))
+			for i := range certs {
+				items[i] = coqFcert(&certs[i])
+			}
+			coqSets = append(coqSets, vh.List(items))
+			c, err := cfg.GetCertificate(&tls.ClientHelloInfo{ServerName: sn})
+			switch {
+			case errors.Is(err, cert.ErrNoCertsStored):
+				impl, seen = append(impl, "RErrNoCerts"), append(seen, "no-certs-stored")
+			case c == nil:
+				impl, seen = append(impl, "RNone"), append(seen, "none")
+			default:
+				idx := 1000
+				for i := range certs {
+					if bytes.Equal(certs[i].Certificate[0], c.Certificate[0]) {
+						idx = i
+					}
+				}
+				impl = append(impl, vh.App("RCert", vh.Nat(idx), coqFcert(c)))
+				seen = append(seen, fmt.Sprintf("#%d leaf=%d rest=%d (sent: rest=%d)", idx, leafID(c), restID(c), func() int {
+					if idx < len(certs) {
+						return restID(&certs[idx])
+					}
+					return -1
+				}()))
+			}
+			if plainSNI(sn) {
+				chain, staple, ok := realHandshakeFull(cfg, sn)
+				switch {
+				case c == nil && ok:
+					run.Violation(run.NextID(), "a real TLS handshake succeeded although GetCertificate returned no certificate", sn)
+				case c != nil && (!ok || fmt.Sprintf("%x|%x", chain, staple) != fmt.Sprintf("%x|%x", c.Certificate, c.OCSPStaple)):
+					run.Violation(run.NextID(), "a real TLS handshake was presented other certificate material (chain, staple) than GetCertificate returned", sn)
+				}
+				run.Notes["real_handshakes"] = 1 + intNote(run.Notes["real_handshakes"])
+			}
+		}
+		run.Add("republish-material", vh.App("CMaterial", vh.List(coqSets), vh.HxS(sn), vh.Bool(strict), vh.List(impl)),
+			map[string]interface{}{"publications": human, "server_name": sn, "strict": strict, "presented": seen})
+	}
+
 	// 2c. schedules of the steps that are atomic in the code, replayed on the real Store:
 	// SetCertificates (build, then store), VerifStoreLoad (the load of GetCertificate),
 	// VerifPickOn (its getCertificate on the loaded value)
@@ -666,12 +886,10 @@ func main() {
 				b[pre+"-cert.pem"], b[pre+"-key.pem"] = keyFile(1), certFile(g)
 			}
 		}
-		// a later entry may have overwritten one half of an earlier pair: ownership is by content
-		for g, f := range owner {
-			if b[f] == nil || b[f].cert != g {
-				delete(owner, g)
-			}
-		}
+		// a later entry may have overwritten one half of an earlier pair, or completed a pair that
+		// an earlier entry left without its other half: which file a certificate sits in is read
+		// off the finished map (every generated certificate sits in at most one certificate file)
+		owner = ownersOf(b)
 		certs, err := cert.VerifLoadCertificates(b.raw())
 		var items, human []string
 		for _, c := range certs {
@@ -693,6 +911,94 @@ func main() {
 		r.Shuffle(len(order), func(i, j int) { order[i], order[j] = order[j], order[i] })
 		run.Add("load-certificates", vh.App("CLoad", b.coqIn(order), vh.List(items), vh.Bool(err != nil)),
 			map[string]interface{}{"files": b.sorted(), "loaded_in_order": human, "error": err != nil})
+	}
+
+	// 2f. loadCertificates on maps in which a block is there but holds nothing: an empty or
+	// whitespace-only certificate, key or combined file (a file that is being rewritten, a
+	// touched file, a KV key without a value) beside pairs that are fine.  Random choices from a
+	// source of their own.
+	rj := mrand.New(mrand.NewSource(run.Seed*7919 + 2))
+	for rep := 0; rep < run.Scale(70, 500); rep++ {
+		b := blocks{}
+		owner := map[*gcert]string{}
+		pres := append([]string{}, prefixes...)
+		rj.Shuffle(len(pres), func(i, j int) { pres[i], pres[j] = pres[j], pres[i] })
+		ngood := 1 + rj.Intn(3)
+		if rep%10 == 9 {
+			ngood = 0
+		}
+		for i := 0; i < ngood; i++ {
+			g := mkCert(fmt.Sprintf("g%d.example", i), nil)
+			if rj.Intn(3) == 0 {
+				b[pres[i]+".pem"] = combinedFile(g, 1)
+				owner[g] = pres[i] + ".pem"
+			} else {
+				b[pres[i]+"-cert.pem"], b[pres[i]+"-key.pem"] = certFile(g), keyFile(1)
+				owner[g] = pres[i] + "-cert.pem"
+			}
+		}
+		var what []string
+		for i, n := 0, 1+rj.Intn(2); i < n; i++ {
+			pre := pres[ngood+i]
+			g := mkCert(fmt.Sprintf("e%d.example", i), nil)
+			empty := func() *pfile { return textFile(emptyBlocks[rj.Intn(len(emptyBlocks))]) }
+			switch k := rj.Intn(7); {
+			case k == 0 && ngood > 0: // the key of one of the good pairs has been truncated
+				hit := false
+				for g, f := range owner {
+					if f == pres[0]+"-cert.pem" {
+						b[pres[0]+"-key.pem"] = empty()
+						delete(owner, g)
+						what = append(what, "good-pair-key-emptied")
+						hit = true
+					}
+				}
+				if hit {
+					break
+				}
+				fallthrough
+			case k == 1:
+				b[pre+"-cert.pem"], b[pre+"-key.pem"] = certFile(g), empty()
+				what = append(what, "empty-key")
+			case k == 2:
+				b[pre+"-cert.pem"], b[pre+"-key.pem"] = empty(), keyFile(1)
+				what = append(what, "empty-cert")
+			case k == 3:
+				b[pre+"-cert.pem"], b[pre+"-key.pem"] = empty(), empty()
+				what = append(what, "both-empty")
+			case k == 4:
+				b[pre+".pem"] = empty()
+				what = append(what, "empty-combined")
+			case k == 5:
+				b[pre+"-key.pem"] = empty()
+				what = append(what, "lone-empty-key")
+			default:
+				b[pre+"-cert.pem"] = empty()
+				what = append(what, "lone-empty-cert")
+			}
+		}
+		owner = ownersOf(b)
+		certs, err := cert.VerifLoadCertificates(b.raw())
+		var items, human []string
+		for _, c := range certs {
+			file := "?"
+			var gg *gcert
+			for g, f := range owner {
+				if bytes.Equal(g.tls.Certificate[0], c.Certificate[0]) {
+					file, gg = f, g
+				}
+			}
+			if gg == nil {
+				items = append(items, vh.Pair(vh.HxS("?"), coqNames(namesOf(c))))
+			} else {
+				items = append(items, vh.Pair(vh.HxS(file), coqCert(gg)))
+			}
+			human = append(human, file)
+		}
+		order := b.sorted()
+		rj.Shuffle(len(order), func(i, j int) { order[i], order[j] = order[j], order[i] })
+		run.Add("load-empty-block", vh.App("CLoad", b.coqIn(order), vh.List(items), vh.Bool(err != nil)),
+			map[string]interface{}{"files": b.sorted(), "damaged": what, "loaded_in_order": human, "error": err != nil})
 	}
 
 	// 3. histories of loads: the real watch loop on a scripted loader, feeding the real
@@ -746,6 +1052,7 @@ func main() {
 		return step{kind: "map", name: fmt.Sprintf("%s%d", kind, id), b: b}
 	}
 	type wres struct {
+		class   string
 		once    bool
 		strict  bool
 		script  []step
@@ -755,11 +1062,50 @@ func main() {
 	}
 	probeNames := []string{"set0.example", "SET1.example.", "set2.example", "set3.example", "nothing.example"}
 	nScripts := run.Scale(26, 80)
-	results := make([]wres, nScripts)
+	// histories in which a snapshot holds a pair one block of which is there but empty (the
+	// window between truncation and write of a renewal tool): pair a intact (a < 0: absent),
+	// pair b with its key, its certificate or both emptied
+	mkT := func(what string, a, b, v int) step {
+		bl := blocks{}
+		if a >= 0 {
+			pair(bl, a)
+		}
+		pair(bl, b)
+		e := textFile(emptyBlocks[v%len(emptyBlocks)])
+		switch what {
+		case "key":
+			bl[fmt.Sprintf("s%d-key.pem", b)] = e
+		case "cert":
+			bl[fmt.Sprintf("s%d-cert.pem", b)] = e
+		case "both":
+			bl[fmt.Sprintf("s%d-key.pem", b)], bl[fmt.Sprintf("s%d-cert.pem", b)] = e, e
+		case "combined": // pair b is fine, an empty combined file beside it
+			bl["zc.pem"] = e
+		}
+		return step{kind: "map", name: fmt.Sprintf("empty-%s(%d;%d)v%d", what, a, b, v%len(emptyBlocks)), b: bl}
+	}
+	type escript struct {
+		once   bool
+		script []step
+	}
+	emptyScripts := []escript{
+		{false, []step{mk("good2", 0), mkT("key", 0, 1, 0), mkT("key", 0, 1, 0), mk("good2", 0)}},
+		{false, []step{mk("good2", 0), mkT("cert", 1, 0, 1), mk("good", 1)}},
+		{false, []step{mk("good", 0), mkT("combined", -1, 0, 0), mk("good", 0)}},
+		{true, []step{mkT("key", 0, 1, 2), mk("good2", 0), mk("good", 2)}},
+		{false, []step{mk("good2", 0), mkT("both", 0, 1, 2), mkT("key", 1, 0, 1), mk("good2", 0)}},
+		{false, []step{mk("good2", 1), mkT("key", 1, 2, 1), mkT("cert", 1, 2, 0), mk("good", 2)}},
+		{false, []step{mkT("cert", 0, 1, 0), mk("good2", 0), mkT("key", 0, 1, 2), mk("good", 0)}},
+		{true, []step{mkT("both", 2, 3, 1), mkT("combined", -1, 3, 1), mk("good", 1)}},
+	}
+	results := make([]wres, nScripts+len(emptyScripts))
 	var wg sync.WaitGroup
-	for si := 0; si < nScripts; si++ {
+	for si := 0; si < nScripts+len(emptyScripts); si++ {
 		once := si%5 == 4
-		n := 2 + r.Intn(3)
+		n := 0
+		if si < nScripts {
+			n = 2 + r.Intn(3)
+		}
 		script := make([]step, n)
 		for i := range script {
 			switch k := r.Intn(14); {
@@ -812,7 +1158,11 @@ func main() {
 		} else if si-len(directed) < len(directedOnce) {
 			once, script = true, directedOnce[si-len(directed)]
 		}
-		results[si] = wres{once: once, strict: si%2 == 0, script: script, picks: map[string][]string{}}
+		class := "watch-to-store"
+		if si >= nScripts {
+			class, once, script = "watch-empty-block", emptyScripts[si-nScripts].once, emptyScripts[si-nScripts].script
+		}
+		results[si] = wres{class: class, once: once, strict: si%2 == 0, script: script, picks: map[string][]string{}}
 		wg.Add(1)
 		go func(si int) {
 			defer wg.Done()
@@ -978,10 +1328,11 @@ func main() {
 	}
 	dirNames := []string{"dir0.example", "dir1.example", "dir2.example", "DIR3.example", "dir5.example", "other.example"}
 	// file names chosen so that the order by file name is not the order of creation
-	dirStates := []struct {
+	type dirState struct {
 		name  string
 		files map[string]*pfile
-	}{
+	}
+	dirStates := []dirState{
 		{"A", map[string]*pfile{"z-cert.pem": certFile(dirCerts[0]), "z-key.pem": keyFile(1), "m.pem": combinedFile(dirCerts[1], 1)}},
 		{"empty", map[string]*pfile{}},
 		{"B", map[string]*pfile{"b-cert.pem": certFile(dirCerts[2]), "b-key.pem": keyFile(1), "a.pem": combinedFile(dirCerts[3], 1)}},
@@ -989,8 +1340,19 @@ func main() {
 		{"C-with-orphan-key", map[string]*pfile{"c-cert.pem": certFile(dirCerts[5]), "c-key.pem": keyFile(1), "d-key.pem": keyFile(1)}},
 	}
 	dirResults := []*dres{{strict: true, picks: map[string][]string{}}, {strict: false, picks: map[string][]string{}}}
-	wg.Add(1)
-	go func() {
+	// 3c. a second directory, at the same time: a pair one file of which is there but empty -
+	// what a renewal tool leaves between truncating a file and writing it - then the renewal
+	truncCerts := []*gcert{mkCert("t0.example", nil), mkCert("t1.example", nil), mkCert("t1.example", []string{"t1.example"})}
+	truncNames := []string{"t0.example", "T1.example.", "other.example"}
+	truncStates := []dirState{
+		{"A", map[string]*pfile{"a-cert.pem": certFile(truncCerts[0]), "a-key.pem": keyFile(1), "w-cert.pem": certFile(truncCerts[1]), "w-key.pem": keyFile(1)}},
+		{"w-key-truncated", map[string]*pfile{"a-cert.pem": certFile(truncCerts[0]), "a-key.pem": keyFile(1), "w-cert.pem": certFile(truncCerts[1]), "w-key.pem": textFile("")}},
+		{"w-cert-whitespace", map[string]*pfile{"a-cert.pem": certFile(truncCerts[0]), "a-key.pem": keyFile(1), "w-cert.pem": textFile("\n"), "w-key.pem": keyFile(1)}},
+		{"w-renewed", map[string]*pfile{"a-cert.pem": certFile(truncCerts[0]), "a-key.pem": keyFile(1), "w-cert.pem": certFile(truncCerts[2]), "w-key.pem": keyFile(1)}},
+		{"empty-combined-beside", map[string]*pfile{"a-cert.pem": certFile(truncCerts[0]), "a-key.pem": keyFile(1), "w-cert.pem": certFile(truncCerts[2]), "w-key.pem": keyFile(1), "m.pem": textFile("")}},
+	}
+	truncResults := []*dres{{strict: true, picks: map[string][]string{}}, {strict: false, picks: map[string][]string{}}}
+	runDir := func(dirStates []dirState, dirCerts []*gcert, dirNames []string, dirResults []*dres) {
 		defer wg.Done()
 		dir, err := os.MkdirTemp("", "c11-certs-")
 		if err != nil {
@@ -1065,7 +1427,10 @@ func main() {
 				}
 			}
 		}
-	}()
+	}
+	wg.Add(2)
+	go runDir(dirStates, dirCerts, dirNames, dirResults)
+	go runDir(truncStates, truncCerts, truncNames, truncResults)
 	wg.Wait()
 	for _, res := range results {
 		items := make([]string, len(res.script))
@@ -1075,7 +1440,7 @@ func main() {
 			human = append(human, st.name)
 		}
 		for _, sn := range probeNames {
-			run.Add("watch-to-store", vh.App("CWatch", vh.Bool(res.once), vh.List(items), vh.HxS(sn), vh.Bool(res.strict), vh.Some(vh.List(res.trace)), vh.List(res.picks[sn])),
+			run.Add(res.class, vh.App("CWatch", vh.Bool(res.once), vh.List(items), vh.HxS(sn), vh.Bool(res.strict), vh.Some(vh.List(res.trace)), vh.List(res.picks[sn])),
 				map[string]interface{}{"once": res.once, "refresh": res.refresh.String(), "script": human, "trace": res.trace, "server_name": sn, "strict": res.strict, "picks": res.picks[sn]})
 		}
 	}
@@ -1088,6 +1453,18 @@ func main() {
 		}
 		for _, sn := range dirNames {
 			run.Add("directory-to-store", vh.App("CWatch", "false", vh.List(items), vh.HxS(sn), vh.Bool(d.strict), "None", vh.List(d.picks[sn])),
+				map[string]interface{}{"states": human, "server_name": sn, "strict": d.strict, "picks": d.picks[sn]})
+		}
+	}
+	for _, d := range truncResults {
+		items := make([]string, len(d.states))
+		var human []string
+		for i, st := range d.states {
+			items[i] = st.coq()
+			human = append(human, st.name)
+		}
+		for _, sn := range truncNames {
+			run.Add("directory-truncated-file", vh.App("CWatch", "false", vh.List(items), vh.HxS(sn), vh.Bool(d.strict), "None", vh.List(d.picks[sn])),
 				map[string]interface{}{"states": human, "server_name": sn, "strict": d.strict, "picks": d.picks[sn]})
 		}
 	}
